@@ -36,6 +36,13 @@ class AbsRaise(Exception):
         self.node = node
 
 
+class ColVec:
+    """A vector reshaped as a column (`v[:, newaxis]`): multiplying a row vector by it gives the outer product."""
+
+    def __init__(self, vals):
+        self.vals = list(vals)
+
+
 class IndexOut(Unsupported):
     """A concrete container of the abstract state was indexed outside its bounds."""
 
@@ -163,6 +170,12 @@ class Vec:
     def __init__(self, vals):
         self.vals = list(vals)
 
+    @staticmethod
+    def view(row: list) -> "Vec":
+        v = Vec([])
+        v.vals = row            # shares storage with the row it was taken from (numpy view semantics)
+        return v
+
     def __len__(self):
         return len(self.vals)
 
@@ -218,11 +231,24 @@ class Mat(Obj):
     def abs_len(self):
         return len(self.rows)
 
+    def abs_getattr(self, name, ev, node):
+        if name == "shape":
+            return (len(self.rows), len(self.rows[0]) if self.rows else 0)
+        if name == "T":
+            return Mat([list(c) for c in zip(*self.rows)])
+        raise Unsupported(f"attribute {name} of a matrix", node)
+
     def abs_getitem(self, idx, node):
         if isinstance(idx, int) and not isinstance(idx, bool):
             if not 0 <= idx < len(self.rows):
                 raise IndexOut(idx, len(self.rows), node)
-            return self.rows[idx]
+            return Vec.view(self.rows[idx])
+        if isinstance(idx, tuple) and len(idx) == 2 and all(isinstance(i, int) and not isinstance(i, bool) for i in idx):
+            if not (0 <= idx[0] < len(self.rows) and 0 <= idx[1] < len(self.rows[idx[0]])):
+                raise IndexOut(idx, len(self.rows), node)
+            return self.rows[idx[0]][idx[1]]
+        if isinstance(idx, Vec) and all(isinstance(i, int) and not isinstance(i, bool) for i in idx.vals):
+            idx = list(idx.vals)
         if isinstance(idx, list) and all(isinstance(i, int) for i in idx):
             for i in idx:
                 if not 0 <= i < len(self.rows):
@@ -271,6 +297,11 @@ def _num(v):
 
 
 def _arith(op: ast.operator, a, b, node):
+    if isinstance(a, ColVec) or isinstance(b, ColVec):
+        row, col = (a, b) if isinstance(b, ColVec) else (b, a)
+        if isinstance(row, Vec) and isinstance(op, ast.Mult):
+            return Mat([[_arith(op, x, w, node) for x in row.vals] for w in col.vals])
+        raise Unsupported("broadcast with a column vector", node)
     if isinstance(a, Vec) or isinstance(b, Vec):
         n = len(a) if isinstance(a, Vec) else len(b)
         av = a.vals if isinstance(a, Vec) else [a] * n
@@ -690,6 +721,12 @@ class Evaluator:
         if isinstance(base, Sym):
             return base[idx]
         if isinstance(base, Vec):
+            if isinstance(idx, tuple) and len(idx) == 2 and idx[0] == slice(None) and idx[1] is None:
+                return ColVec(base.vals)
+            if isinstance(idx, Vec) and idx.vals and all(isinstance(m, int) and not isinstance(m, bool) for m in idx.vals):
+                return Vec([base.vals[i] for i in idx.vals])
+            if isinstance(idx, list) and all(isinstance(m, int) and not isinstance(m, bool) for m in idx):
+                return Vec([base.vals[i] for i in idx])
             if isinstance(idx, Vec):
                 return Vec([v for v, m in zip(base.vals, idx.vals) if m])
             if isinstance(idx, int) and not isinstance(idx, bool):
@@ -714,7 +751,7 @@ class Evaluator:
             return base[idx]
         if isinstance(base, dict):
             if idx not in base:
-                raise Unsupported(f"missing key {idx!r}", n)
+                raise AbsRaise("KeyError", n)
             return base[idx]
         raise Unsupported(f"subscript of {type(base).__name__}", n)
 
@@ -727,6 +764,12 @@ class Evaluator:
             if v is not None:
                 return v
         base = self.ev(n.value)
+        if isinstance(base, Vec):
+            if n.attr == "shape":
+                return (len(base.vals),)
+            if n.attr == "size":
+                return len(base.vals)
+            raise Unsupported(f"attribute {n.attr} of a vector", n)
         if not isinstance(base, Obj) and hasattr(base, "abs_getattr"):
             return base.abs_getattr(n.attr, self, n)
         if isinstance(base, Obj):
@@ -767,6 +810,9 @@ class Evaluator:
             return self.funcs["." + n.func.attr](self, n)
         if isinstance(n.func, ast.Attribute):
             handled, val = self._container_call(n)
+            if handled:
+                return val
+            handled, val = self._vec_call(n)
             if handled:
                 return val
         if name == "repr" and len(n.args) == 1 and not n.keywords:
@@ -940,6 +986,13 @@ class Evaluator:
             if isinstance(base, (list, Vec, dict)):
                 self._concrete_store(base, self.ev(target.slice), op, value, stmt)
                 return
+            if isinstance(base, Mat):
+                idx0 = self.ev(target.slice)
+                if isinstance(idx0, tuple) and len(idx0) == 2 and all(isinstance(i, int) for i in idx0):
+                    if not (0 <= idx0[0] < len(base.rows) and 0 <= idx0[1] < len(base.rows[idx0[0]])):
+                        raise IndexOut(idx0, len(base.rows), stmt)
+                    self._concrete_store(base.rows[idx0[0]], idx0[1], op, value, stmt)
+                    return
             if isinstance(base, Mat) and op == "=":
                 idx = self.ev(target.slice)
                 if isinstance(idx, int) and 0 <= idx < len(base.rows):
@@ -1217,6 +1270,35 @@ class Evaluator:
                         r = list(r)
                     return True, r
         return False, None
+
+    def _vec_call(self, call: ast.Call):
+        try:
+            base = self.ev(call.func.value)
+        except Unsupported:
+            return False, None
+        if not isinstance(base, Vec):
+            return False, None
+        attr = call.func.attr
+        args = [self.ev(a) for a in call.args]
+        if attr == "tolist":
+            return True, list(base.vals)
+        if attr in ("copy", "flatten", "ravel") and not args:
+            return True, Vec(list(base.vals))
+        if attr == "fill" and len(args) == 1:
+            for i in range(len(base.vals)):
+                base.vals[i] = args[0]
+            return True, None
+        if attr == "sum" and not args:
+            tot = 0
+            for x in base.vals:
+                tot = _arith(ast.Add(), tot, (1 if x is True else (0 if x is False else x)), call)
+            return True, tot
+        if attr == "reshape" and len(args) == 2 and args[0] == -1 and isinstance(args[1], int) and args[1] > 0 \
+                and len(base.vals) % args[1] == 0:
+            return True, Mat([base.vals[i:i + args[1]] for i in range(0, len(base.vals), args[1])])
+        if attr == "astype":
+            return True, Vec(list(base.vals))
+        raise Unsupported(f"method {attr} of a vector", call)
 
     def _rhs(self, target, value):
         if self.opaque_ok and isinstance(target, ast.Name):
